@@ -272,6 +272,11 @@ FLOAT_TARGETS = (" What A1/A2 hide (WHERE the library rounds, float noise at fea
                  "`discharged`.")
 for _pid in ('C01', 'C02', 'C05', 'C10', 'C11', 'C12', 'C14'):
     CHECKS[_pid]['note'] += FLOAT_TARGETS
+ROUNDING = (" Rounding placement (A2 relaxed for this function): the same code is re-executed with every internal rounding "
+            "returning some number within half a unit of the 10th decimal, and accuracy bounds with an explicit scale "
+            "precondition are discharged (obligations `rounding-placement/*/accuracy[...]`).")
+for _pid in ('C01', 'C02', 'C10', 'C11', 'C14'):
+    CHECKS[_pid]['note'] += ROUNDING
 CHECKS['C07']['note'] += (" Instruction text of wells is opaque but carries a provenance (whose text it was derived from, "
                           "propagated through splitlines/replace/join); obligation `instructions-home`: every well's final "
                           "text derives from its own.")
